@@ -3,6 +3,7 @@
 package jobs
 
 import (
+	"context"
 	"errors"
 	"sync/atomic"
 	"time"
@@ -150,3 +151,14 @@ func (v *VerifRaffle) State() (int, int, map[string]bool) {
 	}
 	return v.r.ticketsFull, v.r.ticketsIncr, running
 }
+
+// ---- dataset sink (C08, C09) ----
+
+// VerifDatasetSink builds the real datasetSink.
+func VerifDatasetSink(store *server.Store, dsm *server.DsManager, name string) Sink {
+	return &datasetSink{DatasetName: name, Store: store, DatasetManager: dsm}
+}
+
+func VerifSinkStart(s Sink, r *Runner) error                           { return s.startFullSync(r) }
+func VerifSinkEnd(s Sink, r *Runner) error                             { return s.endFullSync(context.Background(), r) }
+func VerifSinkProcess(s Sink, r *Runner, es []*server.Entity) error    { return s.processEntities(r, es) }
